@@ -25,3 +25,48 @@ for _nk in (2, 3, 4):
           out='fitting of the table (dilution, normal score); tables with ties (not strictly increasing); more knots than the bound; rounding of the interpolation',
           assumptions=['real-arithmetic reading of the linear interpolation', 'Z and Y strictly increasing'],
           stubs=['AnamEmpirical object in raw storage: only _nDisc/_ZDisc/_YDisc initialised (constructors not run)'])
+
+
+# ---- C18.b AnamHermite bound / extrapolation branches, expansion = strictly increasing uninterpreted function
+def _mono_opts(symex, z3):
+    """sinh stands for the Hermite expansion: an uninterpreted function with strict monotonicity instantiated on
+    every pair of application terms present (nothing else is assumed about it)."""
+    apps = []
+
+    def axioms(f, args, app):
+        x = args[0]
+        ax = []
+        for y, fy in apps:
+            ax += [z3.Implies(x < y, app < fy), z3.Implies(x > y, app > fy)]
+        apps.append((x, app))
+        return ax
+    return {'libm_axioms': {'sinh': axioms}}
+
+
+def _sinh_native(x):
+    import math
+    from fractions import Fraction
+    try:
+        return Fraction(math.sinh(float(x)))   # concrete arguments (validation runs): the value the native libm returns
+    except OverflowError:
+        return None
+
+
+for _ent, _id, _what in (
+        ('k_raw', 'raw', 'transformToRawValue: inside [az.min, az.max]; non-decreasing over all y (two free points, across every zone boundary); the expansion itself when _flagBound is off'),
+        ('k_gauss', 'gauss', 'rawToTransformValue outside the practical interval (constant and linear branches): inside [ay.min, ay.max]; non-decreasing (two free points); transformToRaw(rawToTransform(z)) == z clamped to the absolute interval'),
+        ('k_lin_y', 'liny', 'y outside the practical interval: transformToRaw(y) inside the absolute interval; rawToTransform(transformToRaw(y)) == y clamped to the absolute interval')):
+    K('C18.b.' + _id, property='C18', engine='symex', harness='C18/hermite_bounds.cpp', entry=_ent,
+      tus=['src/Anamorphosis/AnamHermite.cpp', 'src/Basic/Interval.cpp', 'src/Basic/Utilities.cpp'],
+      symex_opts=_mono_opts,
+      # branch_timeout_ms: the branch into the bisection loop is infeasible for the stated inputs; a feasibility query that times out
+      # (busy machine) would send the engine into 10^6 iterations, so it gets time, and max_steps turns such a run into an error
+      symex={'libm_exact': {'sinh': _sinh_native}, 'branch_timeout_ms': 30000, 'max_steps': 300000},
+      bounds={'quick': 'arbitrary real bounds ay.min < py.min <= py.max < ay.max (|.| <= 1e6), pz = H(py) at both ends, az.min < pz.min, pz.max < az.max, gaps absolute/practical >= 2^-20; all 2^8 inclusion flags; H an arbitrary strictly increasing function; free real query points'},
+      timeout_ms={'quick': 100000, 'thorough': 600000}, validate={'quick': 30, 'thorough': 60},
+      what='AnamHermite::' + _what + ' (with Interval::isOutsideBelow/isOutsideAbove, isEqual, FFFF)',
+      out='the bisection inverse inside the practical interval (up to 10^6 iterations) and therefore monotonicity of rawToTransformValue across the practical bounds; fitting of the bounds (_defineBounds); absent (TEST) bounds; practical and absolute bounds closer than the isEqual tolerance 1e-10; rounding of the linear interpolations',
+      assumptions=['real-arithmetic reading', 'pz.min = H(py.min), pz.max = H(py.max): the practical bounds are points of the expansion (what _defineBounds stores)',
+                   'H strictly increasing (uninterpreted otherwise)', 'bounds ordered as stated'],
+      stubs=['hermiteCondExpElement(y, 0, psi) -> H(y) = sinh(y): uninterpreted + strict monotonicity on the terms present (symex libm_axioms); libm sinh in native builds',
+             'AnamHermite object in raw storage with the class vtable: _flagBound, _rCoef = 1, _psiHn (2 coefficients, unused), the four Interval members (_vmin, _vmax, inclusion flags) initialised by the harness'])
